@@ -454,7 +454,7 @@ var _ = report.Discharged
 // OwnScratchOut implements OWN-SCRATCHOUT: a byte buffer kept in a field of a
 // reader or writer is never handed out.
 func OwnScratchOut(p *load.Program) *report.RuleResult {
-	r := newResult("OWN-SCRATCHOUT", "no method of a type of package ion hands out a byte slice that aliases a buffer kept in a field of its receiver ([]byte, bytes.Buffer): such a slice is only indexed, measured, copied from, appended to and stored back into the same field; it is not returned to a caller outside the type's own helpers, stored anywhere else, boxed, or passed to something that keeps it. The next value overwrites a reused buffer, so a value handed out earlier (a clob from ByteValue, an atom buffered until Finish) would change after the fact", 0)
+	r := newResult("OWN-SCRATCHOUT", "no method of a type of package ion hands out a byte slice that aliases a buffer kept in a field of its receiver ([]byte, [n]byte, bytes.Buffer): such a slice is only indexed, measured, copied from, appended to and stored back into the same field; it is not returned to a caller outside the type's own helpers, stored anywhere else, boxed, or passed to something that keeps it. The next value overwrites a reused buffer, so a value handed out earlier (a clob from ByteValue, an atom buffered until Finish) would change after the fact", 0)
 	for _, fn := range sortedFuncs(p) {
 		if p.InTest(fn) || !p.InModule(fn) || fn.Pkg == nil || fn.Pkg != p.Ion || fn.Signature.Recv() == nil || len(fn.Blocks) == 0 || len(fn.Params) == 0 {
 			continue
@@ -476,6 +476,10 @@ func OwnScratchOut(p *load.Program) *report.RuleResult {
 					switch x := u.(type) {
 					case *ssa.UnOp:
 						if kind == "slice" && x.Op == token.MUL {
+							origin = x
+						}
+					case *ssa.Slice:
+						if kind == "array" && x.X == ssa.Value(fa) {
 							origin = x
 						}
 					case *ssa.Call:
@@ -511,6 +515,12 @@ func scratchKind(fa *ssa.FieldAddr) string {
 			if _, named := t.(*types.Named); !named {
 				return "slice"
 			}
+		}
+		return ""
+	}
+	if ar, ok := t.Underlying().(*types.Array); ok {
+		if b, ok := ar.Elem().(*types.Basic); ok && b.Kind() == types.Uint8 {
+			return "array"
 		}
 		return ""
 	}
